@@ -119,6 +119,10 @@ def check(ctx: Ctx):
     ctx.rule("R-THREAD.handoff", "posting / receiving a message only enqueues it: the comm layer never calls a computation")
     ctx.rule("R-THREAD.mgt", "orchestrator actions are sent as messages to its own agent; direct reads of the management computation are limited to observers")
     ctx.rule("R-THREAD.spawn", "computations and algorithms create no thread or timer of their own (periodic work goes through the agent loop)")
+    ctx.rule("R-THREAD.shared", "per-agent / per-computation tables (periodic actions, computations, buffers) are per-instance: no class-level mutable container mutated through self")
+    from .. import sharedrules
+    sharedrules.check_no_shared_state(ctx, "R-THREAD.shared", ["pydcop.infrastructure.agents", "pydcop.infrastructure.computations", "pydcop.infrastructure.communication",
+                                                             "pydcop.infrastructure.orchestratedagents", "pydcop.infrastructure.orchestrator", "pydcop.infrastructure.discovery"], min_classes=25)
     cg, side, cf, fires, mgt_names = build(repo)
     for m in (AG, ORC, COMPS, COMM, DISC, "pydcop.infrastructure.orchestratedagents"):
         ctx.touch(repo.module(m))
@@ -280,6 +284,7 @@ _O = "pydcop/infrastructure/orchestrator.py"
 _A = "pydcop/infrastructure/agents.py"
 _C = "pydcop/infrastructure/communication.py"
 VARIANTS = [
+    ("periodic_table_shared_by_all_agents", _A, ["    def __init__(self, name,\n                 comm: CommunicationLayer,", "        self._periodic_cb = {}  # type: Dict[Callable, Tuple[float, float]]\n"], ["    _periodic_cb = {}\n\n    def __init__(self, name,\n                 comm: CommunicationLayer,", ""], "break", "R-THREAD.shared"),
     ("orchestrator_runs_directly", _O, "        self._mgt_method('_orchestrator_run_computations', None)", "        self.mgt._orchestrator_run_computations(None, 0)", "break", "R-THREAD.foreign"),
     ("mgt_method_direct_call", _O, "        self.messaging.post_msg(\n            ORCHESTRATOR_MGT, ORCHESTRATOR_MGT,\n            Message(method, arg), msg_type=5)", "        getattr(self.mgt, method)(Message(method, arg), 0)", "break", "R-THREAD.mgt"),
     ("timeout_stops_mgt", _O, "        self.stop_agents(5)\n        self.mgt.ready_to_run.set()", "        self.stop_agents(5)\n        self.mgt.stop()\n        self.mgt.ready_to_run.set()", "break", "R-THREAD.foreign"),
